@@ -45,9 +45,14 @@ var (
 	ErrInt64UnderflowsUint64 = errors.New("int64 underflows uint64")
 	// ErrFloat64UnderflowsUint64 is returned if when converting an float6464 to a uint64 underflow uint64
 	ErrFloat64UnderflowsUint64 = errors.New("float64 underflows uint64")
+	// ErrFloat64OverflowsUint64 is returned if a float64 is not a number or is too large for a uint64
+	ErrFloat64OverflowsUint64 = errors.New("float64 overflows uint64")
 	// ErrDivideByZero is returned if a coin amount is distributed over zero parts
 	ErrDivideByZero = errors.New("divide by zero")
 )
+
+// maxUint64Float is 2^64, the smallest float64 that does not fit a uint64
+const maxUint64Float = float64(1 << 64)
 
 var maxDecimal decimal.Decimal
 
@@ -198,6 +203,11 @@ func Int64ToCoin(a int64) (Coin, error) {
 func Float64ToCoin(a float64) (Coin, error) {
 	if a < 0 {
 		return 0, ErrFloat64UnderflowsUint64
+	}
+	// NaN, +Inf and values >= 2^64 have no uint64 representation; the
+	// conversion below would yield an implementation-defined amount
+	if math.IsNaN(a) || a >= maxUint64Float {
+		return 0, ErrFloat64OverflowsUint64
 	}
 	return Coin(a), nil
 }
